@@ -93,6 +93,7 @@ func TestC20(t *testing.T) {
 	r.Parallel(t, "real-join-copy", r.Cfg.pick(200, 4000)/scale, joinReal(joinGen{Discs: discs, NoCopy: -1, Retain: true, Real: true}))
 	r.Parallel(t, "real-join-nocopy", r.Cfg.pick(200, 4000)/scale, joinReal(joinGen{Discs: discs, NoCopy: 1, Retain: true, Real: true}))
 	r.Parallel(t, "real-join-v1-stop", r.Cfg.pick(150, 3000)/scale, joinReal(joinGen{Discs: []string{"v1join"}, Stop: 1, Real: true}))
+	r.Parallel(t, "real-join-v1-stop-before-release", r.Cfg.pick(300, 4000)/scale, joinReal(joinGen{Discs: []string{"v1join"}, NoCopy: 1, Stop: 2, Real: true}))
 	r.Parallel(t, "real-limit", r.Cfg.pick(150, 3000)/scale, func(t *testing.T, idx int, rng *rand.Rand) {
 		res := r.limitCase(t, genLimitScenario(rng, limitGen{Real: true}))
 		if res.tr != nil && res.tr.Closed {
